@@ -13,6 +13,7 @@ def run(cmd, **kw):
     return subprocess.run(cmd, capture_output=True, text=True, **kw)
 def clean(s): return "\n".join(l for l in s.splitlines() if "WARNING" not in l)
 run(["git", "-C", wt, "checkout", "-q", "--", "."])
+run(["git", "-C", wt, "checkout", "-q", "--detach", "main"])  # the scratch tree follows /repo HEAD (fix: commits)
 env0 = dict(os.environ, PYTHONPATH="/repo")
 r0 = run(["timeout", "180", "/venv/bin/python", demo], env=env0, cwd="/var/tmp")
 a = run(["git", "-C", wt, "apply", diff])
